@@ -422,6 +422,8 @@ pub struct Runner {
     pub verif_dir: String,
     /// only run stages whose name contains this (debug aid; evidence marks the run partial)
     pub only: Option<String>,
+    /// saved failing cases (committed under regress/<ID>/): (check, case, path); re-judged first
+    pub regress: Vec<(String, Value, String)>,
     pub started: Instant,
 }
 
@@ -465,6 +467,7 @@ impl Runner {
             inconclusive: Vec::new(),
             verif_dir,
             only: None,
+            regress: Vec::new(),
             started: Instant::now(),
         }
     }
@@ -519,6 +522,37 @@ impl Runner {
                 }
             }
         }
+    }
+
+    /// Replay tier: saved cases of this check are re-judged directly, bypassing the generators.
+    fn run_regress<C: CaseIo>(&mut self, name: &str, judge: &(dyn Fn(&C, &mut Stats) -> Verdict + Sync)) {
+        let mine: Vec<(Value, String)> = self.regress.iter().filter(|(c, _, _)| c == name).map(|(_, v, p)| (v.clone(), p.clone())).collect();
+        if mine.is_empty() {
+            return;
+        }
+        let t0 = Instant::now();
+        let mut st = Stats::default();
+        for (v, path) in mine {
+            match C::from_json(&v) {
+                None => self.inconclusive.push(format!("regression file {} does not decode as a case of check {}", path, name)),
+                Some(c) => {
+                    let r = match guard(|| judge(&c, &mut st)) {
+                        Ok(r) => r,
+                        Err(p) => Err(Fail::new("harness-panic", "", name, "judge returns", format!("judge panicked: {}", p))),
+                    };
+                    st.class("regression-file");
+                    if let Err(f) = r {
+                        if self.is_known(&f.sig) {
+                            *st.known_hits.entry(f.sig.clone()).or_insert(0) += 1;
+                        } else {
+                            self.violations.push(Violation { stage: name.to_string(), fail: f, case: c.to_json(), replay_path: path });
+                        }
+                    }
+                }
+            }
+        }
+        let label = format!("{}#regress", name);
+        self.finish_stage(&label, "replay(saved cases)", st, None, t0);
     }
 
     /// Greedy case-level shrinking after the library's own.
@@ -584,6 +618,7 @@ impl Runner {
         if self.replay.is_some() {
             return self.do_replay(name, judge);
         }
+        self.run_regress(name, judge);
         let t0 = Instant::now();
         let shards = THREADS.min(cases.max(1) as usize).max(1);
         let per = (cases + shards as u64 - 1) / shards as u64;
@@ -689,6 +724,7 @@ impl Runner {
         if self.replay.is_some() {
             return self.do_replay(name, judge);
         }
+        self.run_regress(name, judge);
         let t0 = Instant::now();
         let results: Mutex<Vec<(usize, Stats, Option<(C, Fail)>)>> = Mutex::new(Vec::new());
         let stop = AtomicBool::new(false);
@@ -855,3 +891,21 @@ pub fn load_known(verif_dir: &str) -> Vec<Known> {
 // Keep the unused-import lint quiet for items used only through the trait objects above.
 #[allow(dead_code)]
 fn _unused(_: &dyn ValueTree<Value = u8>, _: &dyn Fn() -> Box<dyn Strategy<Value = u8, Tree = proptest::num::u8::BinarySearch>>) {}
+
+pub fn load_regress(verif_dir: &str, prop: &str) -> Vec<(String, Value, String)> {
+    let mut out = Vec::new();
+    let dir = format!("{}/regress/{}", verif_dir, prop);
+    let mut names: Vec<String> = match std::fs::read_dir(&dir) {
+        Ok(rd) => rd.filter_map(|e| e.ok()).map(|e| e.path().to_string_lossy().to_string()).filter(|p| p.ends_with(".json")).collect(),
+        Err(_) => return out,
+    };
+    names.sort();
+    for p in names {
+        if let Some(v) = std::fs::read(&p).ok().and_then(|t| serde_json::from_slice::<Value>(&t).ok()) {
+            if let (Some(check), Some(case)) = (v.get("check").and_then(|c| c.as_str()), v.get("case")) {
+                out.push((check.to_string(), case.clone(), p.clone()));
+            }
+        }
+    }
+    out
+}
